@@ -104,7 +104,7 @@ pub fn run(ctx: &mut Ctx) {
     for l in crate::checks::c09::literals() {
         // spelling variants of a literal (an underscore between digits) parse to the same library as the
         // original, so rendering them adds nothing
-        if matches!(l.expect, crate::checks::c09::Expect::Reject(_)) || l.label.contains("underscore-between-digits") {
+        if matches!(l.expect, crate::checks::c09::Expect::Reject(_)) || l.label.contains("underscore-between-digits") || l.label.starts_with("real/body") {
             continue;
         }
         cases.push(Case { group: "literal", labels: vec![l.label.clone()], lx: crate::checks::c09::program(&l), nt: crate::nt::NT::Nil });
